@@ -58,22 +58,24 @@ type pendingCall struct {
 }
 
 type world struct {
-	r          *vk.Run
-	tag        string // seed/script identification used in finding texts
-	cfg        Cfg
-	dir        string
-	st         *store.ImmuStore
-	clock      atomic.Int64
-	holder     *store.Tx
-	seen       []*txRecord // first report of every committed id (index id-1)
-	pending    []*pendingCall
-	stepIdx    int
-	discards   int  // number of discards that removed something so far
-	reopenAD   bool // a reopen was executed after such a discard
-	violated   bool
-	concurrent bool
-	extSeen    bool // external commit allowance is or has been enabled in this script
-	ahtDirty   bool // set after Discard + precommit attempt under allowance; no longer restricts generation: since
+	r             *vk.Run
+	tag           string // seed/script identification used in finding texts
+	cfg           Cfg
+	dir           string
+	st            *store.ImmuStore
+	clock         atomic.Int64
+	holder        *store.Tx
+	seen          []*txRecord // first report of every committed id (index id-1)
+	pending       []*pendingCall
+	stepIdx       int
+	discards      int  // number of discards that removed something so far
+	reopenAD      bool // a reopen was executed after such a discard
+	reopenPct     int  // prealloc-reopen family: chance (%) of a clean Close/Open right after a step that committed something
+	justCommitted bool
+	violated      bool
+	concurrent    bool
+	extSeen       bool // external commit allowance is or has been enabled in this script
+	ahtDirty      bool // set after Discard + precommit attempt under allowance; no longer restricts generation: since
 	// 2077e08 / 8728288 OpenWith rebuilds the tree beyond the committed transactions and no commit-log tail exists
 	collect   bool // falsifier-only scenario: findings are collected instead of reported
 	collected []string
